@@ -275,3 +275,41 @@ func VH_C04_torn_tail() {
 	vassert("C04.restart_no_truncation", vhFileSize(s2) == len(after))
 	vhCloseAOF(s2)
 }
+
+// VH_C04_chunk_boundary: a log larger than one 64 KiB read. A large first command places the read boundary
+// (offset 65535) at every position inside a second command whose id and value bytes are symbolic (binary
+// safe, NUL included); a torn third command follows. The carry-over between reads must neither lose nor
+// invent a byte.
+//verif:cfg use=recorder,filemodel b_log_size=one_read_boundary_(65535) b_boundary=every_offset_inside_the_second_command b_arg_bytes=1+3_symbolic ignorego=1 maxsteps=60000000
+func VH_C04_chunk_boundary() {
+	id, v := vnondetStringN(1), vnondetStringN(3)
+	vassume(id != "z")
+	enc2 := vhEncode("SET", "k", id, "STRING", v)
+	j := vchoose(len(enc2) + 1) // how many bytes of the second command lie before the boundary
+	// first command: SET k z STRING <filler>, sized so that it ends at 65535-j
+	head := len(vhEncode("SET", "k", "z", "STRING", "")) - len("$0\r\n\r\n")
+	fill := 65535 - j - head - len("$65400\r\n") - 2
+	filler := make([]byte, fill)
+	for i := range filler {
+		filler[i] = 'f'
+	}
+	enc1 := vhEncode("SET", "k", "z", "STRING", string(filler))
+	vassume(len(enc1) == 65535-j)
+	var log []byte
+	log = append(log, enc1...)
+	log = append(log, enc2...)
+	e2 := len(log)
+	log = append(log, "*3\r\n$3\r\nDEL\r\n$1\r\nk"...) // torn tail
+	s := vhNewServer()
+	vhOpenAOF(s, log)
+	err := s.loadAOF()
+	vobs("boundary", j, id, v)
+	vassert("C04.no_error", err == nil)
+	got, ok := vhStringValue(s, "k", id)
+	vassert("C04.straddling_command_recovered_exactly", ok && got == v)
+	big, okb := vhStringValue(s, "k", "z")
+	vassert("C04.large_value_recovered", okb && len(big) == fill)
+	vassert("C04.aofsz", s.aofsz == e2)
+	vassert("C04.file_cut_to_boundary", vhFileSize(s) == e2)
+	vhCloseAOF(s)
+}
